@@ -411,7 +411,9 @@ pub fn plan_for(reg: &Registry, prop: &str, exh_log2: f64, samples: u64) -> Vec<
             continue; // explicit not-implemented stub: nothing to judge
         }
         let sp = op.space_log2();
-        let mode = if sp <= exh_log2 {
+        // low-weight entries (extra spellings of an operation that is swept exhaustively under its
+        // main entry) are not enumerated when the space is larger than 2^28
+        let mode = if sp <= exh_log2 && !(op.weight < 1.0 && sp > 28.0) {
             Mode::Exhaustive
         } else {
             Mode::Sample(((samples as f64) * op.weight).max(1024.0) as u64)
